@@ -23,6 +23,7 @@ type VC struct {
 
 	addrFuns []string
 	nGlobals int
+	nFuncs   int
 	seqSeen  map[string]bool
 	defReads map[string][]string
 	Params   map[string]Term // parameter name -> SMT term (for model extraction)
